@@ -3,6 +3,7 @@ CONSTANTS
   MaxR = 3
   MaxD = 4
   DefKinds <- MCKinds
+  DDefKinds <- MCDKinds
   MaxSpell = 4
 SPECIFICATION Spec
 INVARIANT RecordedOnce
